@@ -471,7 +471,13 @@ impl Formatter {
     };
     for el in node.elements.iter() {
       let el_str = self.section_element(el);
-      src = format!("{}{}", src, el_str);
+      if self.html || el_str.is_empty() {
+        src = format!("{}{}", src, el_str);
+      } else {
+        // block elements are separated by a blank line: written back to back, a paragraph after a list reads as part of
+        // its last item, an element after an image as part of the image line, two lists as one
+        src = format!("{}{}{}\n", src, el_str, if el_str.ends_with('\n') { "" } else { "\n" });
+      }
     }
     let toc = if self.toc { "toc" } else { "" };
     let section_id = hash_str(&format!("section-{}",self.h2_num + 1));
